@@ -23,7 +23,7 @@ func init() {
 		},
 		Serial:    false,
 		Budget:    map[string]time.Duration{"quick": 100 * time.Second, "thorough": 25 * time.Minute},
-		Bound:     map[string]string{"quick": "deviations <= 2, <= 2 messages", "thorough": "deviations <= 3 (2 for B >= 4096), <= 3 messages, levels -2..9, big sizes"},
+		Bound:     map[string]string{"quick": "deviations <= 2, <= 2 messages", "thorough": "deviations <= 2 over the whole product with full value sets, <= 3 on a sub-lattice (B in {125,300}, every fourth size)"},
 		Scenarios: c02Scenarios,
 	})
 }
